@@ -1590,7 +1590,10 @@ class Interp:
         base = unwrap(self.eval(node.value, env))
         if isinstance(base, _CClass):
             elts = node.slice.elts if isinstance(node.slice, ast.Tuple) else [node.slice]
-            return base[tuple(self.eval(e, env) for e in elts)]
+            vals = [self.eval(e, env) for e in elts]
+            if len(vals) == 1 and isinstance(unwrap(vals[0]), tuple):
+                vals = list(unwrap(vals[0]))          # np.c_[f(...)] where f returns a tuple of columns: NumPy unpacks it the same way
+            return base[tuple(vals)]
         idx = self.eval_index(node.slice, env)
         if isinstance(base, Opaque):
             return Opaque(base.what + "[]")
